@@ -53,7 +53,7 @@ func collectSets(d *hx.Doc, s *hx.Schema, op *hx.Op) []setRef {
 	return out
 }
 
-var defectKinds = []string{"unknown-field", "undeclared-arg", "omitted-required-arg", "unknown-directive", "misplaced-directive", "undefined-condition-inline", "undefined-condition-fragment"}
+var defectKinds = []string{"unknown-field", "undeclared-arg", "omitted-required-arg", "unknown-directive", "misplaced-directive", "undeclared-directive-arg", "undefined-condition-inline", "undefined-condition-fragment"}
 
 // Defect describes the injected defect (kept in Case.Note as text, and here for the oracle).
 type Defect struct {
@@ -245,8 +245,17 @@ func inject(t *rapid.T, c *Case, kind string) (df Defect, ok bool) {
 			}
 		}
 		// where: a new field / inline fragment / spread inside the set, or (misplaced only) the operation itself
-		where := rapid.IntRange(0, 3).Draw(t, "dirWhere")
+		where := rapid.IntRange(0, 4).Draw(t, "dirWhere")
 		switch {
+		case where == 4 && len(c.Doc.Frags) > 0:
+			// on the definition of a named fragment (which may be written before or after its spreads)
+			fr := c.Doc.Frags[pick0(t, len(c.Doc.Frags), "dirFrag")]
+			if kind == "misplaced-directive" && rapid.Bool().Draw(t, "skipOnFragDef") {
+				du = hx.DirUse{Name: "skip", Args: []hx.KV{{Key: "if", V: hx.Bool(false)}}}
+				df.Name = "skip"
+			}
+			fr.Dirs = append(fr.Dirs, du)
+			sr = sets[0]
 		case where == 0 && s.KindOf(sr.con) != hx.KUnion:
 			insertAt(t, sr.sels, &hx.Sel{Kind: "field", Alias: "dfct", Name: "__typename", Dirs: []hx.DirUse{du}})
 			df.Key = "dfct"
@@ -263,6 +272,63 @@ func inject(t *rapid.T, c *Case, kind string) (df Defect, ok bool) {
 			df.Key = "dfct"
 		}
 		df.Con, df.Depth, df.Rejected = sr.con, sr.depth, true
+	case "undeclared-directive-arg":
+		// a declared directive at a legal place, its declared arguments satisfied, plus an argument the
+		// directive does not declare - written as a literal or as a (declared) variable
+		sr, found := pickSet(nil)
+		if !found {
+			return df, false
+		}
+		df.Name = "zzz"
+		which := rapid.SampledFrom([]string{"include", "skip", "onfield"}).Draw(t, "udaDir")
+		du := hx.DirUse{Name: which}
+		switch which {
+		case "include":
+			du.Args = []hx.KV{{Key: "if", V: hx.Bool(true)}}
+		case "skip":
+			du.Args = []hx.KV{{Key: "if", V: hx.Bool(false)}}
+		case "onfield":
+			if rapid.Bool().Draw(t, "udaGiveOptional") {
+				du.Args = []hx.KV{{Key: "level", V: hx.I64(2)}}
+			}
+		}
+		bad := hx.KV{Key: "zzz", V: hx.Bool(true)}
+		dvDefault := hx.Bool(true)
+		switch rapid.IntRange(0, 2).Draw(t, "udaValue") {
+		case 1:
+			op.Vars = append(op.Vars, &hx.VarDef{Name: "dv", Type: hx.Named("Boolean"), Default: &dvDefault})
+			op.Anon = false
+			bad.V = hx.VarV("dv")
+		case 2:
+			bad.V = hx.Nil()
+		}
+		pos := rapid.IntRange(0, len(du.Args)).Draw(t, "argPos")
+		args := append([]hx.KV{}, du.Args[:pos]...)
+		args = append(args, bad)
+		du.Args = append(args, du.Args[pos:]...)
+		fds := fieldsWith(sr.con, func(*hx.Field) bool { return true })
+		where := rapid.IntRange(0, 2).Draw(t, "dirWhere")
+		switch {
+		case where == 0 && len(fds) > 0:
+			fd := rapid.SampledFrom(fds).Draw(t, "fd")
+			sel := mkFieldSel(fd)
+			for _, a := range fd.Args {
+				if a.Type.NonNull {
+					g := &docGen{t: t, s: s, vars: map[string]*hx.VarDef{}, vals: map[string]hx.Val{}}
+					sel.Args = append(sel.Args, hx.KV{Key: a.Name, V: g.genArgLiteral(a.Type, "da"+a.Name, false)})
+				}
+			}
+			sel.Dirs = []hx.DirUse{du}
+			insertAt(t, sr.sels, sel)
+		case where == 1 && which != "onfield":
+			insertAt(t, sr.sels, &hx.Sel{Kind: "inline", Dirs: []hx.DirUse{du}, Sels: []*hx.Sel{{Kind: "field", Alias: "dfct", Name: "__typename"}}})
+		default:
+			if s.KindOf(sr.con) == hx.KUnion {
+				return df, false
+			}
+			insertAt(t, sr.sels, &hx.Sel{Kind: "field", Alias: "dfct", Name: "__typename", Dirs: []hx.DirUse{du}})
+		}
+		df.Key, df.Con, df.Depth, df.Rejected = "dfct", sr.con, sr.depth, true
 	case "undefined-condition-inline":
 		sr, found := pickSet(nil)
 		if !found {
@@ -311,6 +377,7 @@ func genCaseC10(t *rapid.T) *c10Case {
 	}
 	s := GenSchema(t, p)
 	s.Dirs = append(s.Dirs, &hx.DirDef{Name: "onquery", On: []string{"QUERY"}})
+	s.Dirs = append(s.Dirs, &hx.DirDef{Name: "onfield", On: []string{"FIELD"}, Args: []*hx.Arg{{Name: "level", Type: hx.Named("Int")}}})
 	if p.Args {
 		// make sure fields with a required argument exist (needed by the omitted-argument defect)
 		for _, td := range s.Types {
@@ -338,7 +405,7 @@ func genCaseC10(t *rapid.T) *c10Case {
 	roundTrip(base, &cp)
 	kinds := defectKinds
 	if strategy == "X" {
-		kinds = []string{"unknown-field", "unknown-directive", "misplaced-directive", "undefined-condition-inline", "undefined-condition-fragment"}
+		kinds = []string{"unknown-field", "unknown-directive", "misplaced-directive", "undeclared-directive-arg", "undefined-condition-inline", "undefined-condition-fragment"}
 	}
 	perm := rapid.Permutation(kinds).Draw(t, "kindOrder")
 	for _, k := range perm {
@@ -415,7 +482,7 @@ func checkC10(cc *c10Case) (ds []hx.Discrepancy, exp *hx.Expect, res map[string]
 		} else {
 			add("no-error", "", "the defect produced no error%s", ctx())
 		}
-	} else if df.Kind == "unknown-field" || df.Kind == "undeclared-arg" {
+	} else if df.Kind == "unknown-field" || df.Kind == "undeclared-arg" || df.Kind == "undeclared-directive-arg" {
 		named := false
 		for _, e := range errs {
 			if em, ok := e.(map[string]interface{}); ok {
@@ -442,6 +509,10 @@ func checkC10(cc *c10Case) (ds []hx.Discrepancy, exp *hx.Expect, res map[string]
 				// ("rejected, never resolved": dropping the argument and resolving the selection
 				// anyway - for a later member of a list, say - is not rejecting it)
 				add("resolver-invoked", "", "the selection with the undeclared argument %q was resolved (the argument dropped): %+v%s", df.Name, call, ctx())
+			}
+		case "undeclared-directive-arg":
+			if call.Key == "dfct" {
+				add("resolver-invoked", "", "resolver invoked for the selection whose directive has the undeclared argument %q: %+v%s", df.Name, call, ctx())
 			}
 		case "omitted-required-arg":
 			if call.Key == "dfct" {
